@@ -97,7 +97,12 @@ pub(crate) fn ws_comment_newline(input: &mut Input<'_>) -> ModalResult<()> {
 
         let next_token = opt(peek(any)).parse_next(input)?;
         match next_token {
-            Some(b'#') => (comment, newline).void().parse_next(input)?,
+            Some(b'#') => (
+                comment,
+                newline.context(StrContext::Expected(StrContextValue::CharLiteral('\n'))),
+            )
+                .void()
+                .parse_next(input)?,
             Some(b'\n') => (newline).void().parse_next(input)?,
             Some(b'\r') => (newline).void().parse_next(input)?,
             _ => break,
